@@ -254,21 +254,26 @@ class _Clock:
 class _Ids:
     """Namespace substituted for ``secrets`` inside ``_sticky``: deterministic 12-byte session ids.
 
-    With ``collide=True`` every worker draws the same sequence, so session k of worker 0 and session k of
-    worker 1 share an id — the situation in which only the ``server_id`` comparison keeps workers apart.
+    Ids are globally unique unless the harness sets ``world.force_id`` (and ``collide=True``): the next session
+    then gets exactly that id, which lets a history mint on worker B a session whose id equals one minted on
+    worker A — the situation in which only the ``server_id`` comparison keeps workers apart.
     """
 
     def __init__(self, world: World, collide: bool) -> None:
         self._world = world
         self._collide = collide
-        self._counters: dict[int, int] = {}
+        self._next = 0
 
     def token_bytes(self, n: int = 32) -> bytes:
-        w = self._world.current_worker
-        k = self._counters.get(w, 0)
-        self._counters[w] = k + 1
-        tag = 0 if self._collide else w + 1
-        return (bytes([0x53, tag]) + k.to_bytes(8, "big") + b"\x00" * n)[:n]
+        w = self._world
+        if self._collide and w.force_id is not None:
+            k = w.force_id
+        else:
+            k = self._next
+            self._next += 1
+        w.force_id = None
+        w.last_id = k
+        return (bytes([0x53, 0]) + k.to_bytes(8, "big") + b"\x00" * n)[:n]
 
 
 class _InertReaper:
@@ -464,6 +469,8 @@ class World:
         self.default_ttl_ms = default_ttl_ms
         self.clock = _Clock()
         self.current_worker = 0
+        self.force_id: int | None = None  # id the next opened session must get (cross-worker collision)
+        self.last_id: int | None = None  # id handed to the most recently opened session
         self.next_serial = 0
         self.states: dict[int, State] = {}
         self.log: list[dict[str, Any]] = []
